@@ -149,6 +149,7 @@ func constInt(v ssa.Value) (int64, bool) {
 type Edge struct {
 	From *ssa.BasicBlock
 	Succ int
+	Via  *ssa.BasicBlock // when set: the edge only counts for control that entered From from Via (a branch on a phi of From)
 }
 
 func (e Edge) To() *ssa.BasicBlock { return e.From.Succs[e.Succ] }
@@ -158,6 +159,8 @@ type Graph struct {
 	Fn      *ssa.Function
 	Dead    map[Edge]bool // infeasible edges; nil = full CFG
 	reachOK map[*ssa.BasicBlock]bool
+	folding int // >0 while a folding decision is being computed (nested searches do not fold)
+	foldMem map[[2]*ssa.BasicBlock]int8
 }
 
 func FullGraph(fn *ssa.Function) *Graph { return &Graph{Fn: fn} }
@@ -165,7 +168,7 @@ func FullGraph(fn *ssa.Function) *Graph { return &Graph{Fn: fn} }
 func (g *Graph) succs(b *ssa.BasicBlock) []Edge {
 	var out []Edge
 	for i := range b.Succs {
-		e := Edge{b, i}
+		e := Edge{From: b, Succ: i}
 		if g.Dead != nil && g.Dead[e] {
 			continue
 		}
@@ -206,7 +209,8 @@ func (g *Graph) InstrReachable(p IPos) bool { return g.Reachable()[p.B] }
 type Avoid struct {
 	Instrs        map[ssa.Instruction]bool
 	Edges         map[Edge]bool
-	EdgeSensitive bool // fold branches on phis that are constant along the edge taken
+	EdgeSensitive bool            // (historic: folding is always on)
+	StartPrev     *ssa.BasicBlock // control entered from.B from this predecessor (for branch folding)
 }
 
 func avoidInstrs(ins ...ssa.Instruction) Avoid {
@@ -264,6 +268,9 @@ func (g *Graph) PathExists(from, to IPos, av Avoid) (bool, []*ssa.BasicBlock) {
 		return p
 	}
 	start := &st{b: from.B}
+	if av.StartPrev != nil {
+		start.prev = &st{b: av.StartPrev}
+	}
 	hit, blocked := scan(from.B, from.I+1)
 	if hit {
 		return true, witness(start)
@@ -280,9 +287,9 @@ func (g *Graph) PathExists(from, to IPos, av Avoid) (bool, []*ssa.BasicBlock) {
 		succs := g.succs(s.b)
 		// edge-sensitive folding: a branch on a phi of this block whose incoming value along the edge
 		// just taken is a boolean constant follows only the matching successor (flag set before break)
-		if av.EdgeSensitive && s.prev != nil && len(s.b.Instrs) > 0 {
+		if g.folding == 0 && s.prev != nil && len(s.b.Instrs) > 0 {
 			if ifi, ok := s.b.Instrs[len(s.b.Instrs)-1].(*ssa.If); ok {
-				if v, known := phiConstAlong(ifi.Cond, s.prev.b, s.b); known {
+				if v, known := g.condAlong(ifi.Cond, s.prev.b, s.b); known {
 					var keep []Edge
 					for _, e := range succs {
 						if (e.Succ == 0) == v {
@@ -297,10 +304,13 @@ func (g *Graph) PathExists(from, to IPos, av Avoid) (bool, []*ssa.BasicBlock) {
 			if av.Edges != nil && av.Edges[e] {
 				continue
 			}
+			if av.Edges != nil && s.prev != nil && av.Edges[Edge{From: e.From, Succ: e.Succ, Via: s.prev.b}] {
+				continue
+			}
 			t := e.To()
 			k := key{nil, t}
-			if av.EdgeSensitive {
-				k.p = s.b
+			if g.folding == 0 && blockHasPhi(t) {
+				k.p = s.b // the branch of t may depend on the edge taken
 			}
 			if seen[k] {
 				continue
@@ -318,6 +328,179 @@ func (g *Graph) PathExists(from, to IPos, av Avoid) (bool, []*ssa.BasicBlock) {
 		}
 	}
 	return false, nil
+}
+
+// resolveAt follows v through phis whose other incoming values cannot reach the instruction at `at`
+// (for instance the zero value assigned next to an error that is returned straight away): the value
+// actually seen at `at`.
+func (g *Graph) resolveAt(v ssa.Value, at IPos) ssa.Value {
+	for d := 0; d < 6; d++ {
+		phi, ok := v.(*ssa.Phi)
+		if !ok {
+			return v
+		}
+		b := phi.Block()
+		var only ssa.Value
+		n := 0
+		for i, p := range b.Preds {
+			if !g.Reachable()[p] || !g.edgeFeasible(p, b) {
+				continue
+			}
+			if ex, _ := g.PathExists(IPos{b, -1}, at, Avoid{StartPrev: p}); !ex {
+				continue
+			}
+			if only == nil || only != phi.Edges[i] {
+				n++
+				only = phi.Edges[i]
+			}
+		}
+		if n != 1 || only == v {
+			return v
+		}
+		v = only
+	}
+	return v
+}
+
+func blockHasPhi(b *ssa.BasicBlock) bool {
+	if len(b.Instrs) == 0 {
+		return false
+	}
+	_, ok := b.Instrs[0].(*ssa.Phi)
+	return ok
+}
+
+// condAlong evaluates the branch condition c of block b for control arriving from pred: a phi of b
+// whose incoming value is a boolean constant, or a nil test of a phi of b whose incoming value is the
+// nil constant / known to be non-nil there (a freshly built error, or a value already tested). This
+// correlates a result assigned before a break or return-through-variable with the test that follows.
+func (g *Graph) condAlong(c ssa.Value, pred, b *ssa.BasicBlock) (bool, bool) {
+	k := [2]*ssa.BasicBlock{pred, b}
+	if g.foldMem == nil {
+		g.foldMem = map[[2]*ssa.BasicBlock]int8{}
+	}
+	if m, ok := g.foldMem[k]; ok {
+		return m == 1, m != 0
+	}
+	g.folding++
+	v, known := g.condAlong1(c, pred, b, 0)
+	g.folding--
+	switch {
+	case !known:
+		g.foldMem[k] = 0
+	case v:
+		g.foldMem[k] = 1
+	default:
+		g.foldMem[k] = 2
+	}
+	return v, known
+}
+
+func incomingFrom(phi *ssa.Phi, pred *ssa.BasicBlock) ssa.Value {
+	var out ssa.Value
+	for i, pr := range phi.Block().Preds {
+		if pr == pred {
+			if out != nil && out != phi.Edges[i] {
+				return nil // two edges from the same predecessor with different values
+			}
+			out = phi.Edges[i]
+		}
+	}
+	return out
+}
+
+func (g *Graph) condAlong1(c ssa.Value, pred, b *ssa.BasicBlock, depth int) (bool, bool) {
+	if depth > 4 {
+		return false, false
+	}
+	switch x := c.(type) {
+	case *ssa.UnOp:
+		if x.Op == token.NOT {
+			v, k := g.condAlong1(x.X, pred, b, depth+1)
+			return !v, k
+		}
+	case *ssa.Phi:
+		if x.Block() != b {
+			return false, false
+		}
+		if in := incomingFrom(x, pred); in != nil {
+			if cb, ok := constBool(in); ok {
+				return cb, true
+			}
+		}
+	case *ssa.BinOp:
+		if x.Op != token.EQL && x.Op != token.NEQ {
+			return false, false
+		}
+		var o ssa.Value
+		switch {
+		case isNilConst(x.Y):
+			o = x.X
+		case isNilConst(x.X):
+			o = x.Y
+		default:
+			return false, false
+		}
+		phi, ok := o.(*ssa.Phi)
+		if !ok || phi.Block() != b {
+			return false, false
+		}
+		in := incomingFrom(phi, pred)
+		if in == nil {
+			return false, false
+		}
+		switch g.nilnessAtEnd(in, pred, b, 0) {
+		case 1: // nil
+			return x.Op == token.EQL, true
+		case 2: // non-nil
+			return x.Op == token.NEQ, true
+		}
+	}
+	return false, false
+}
+
+// nilnessAtEnd: 1 = v is nil, 2 = v is non-nil, 0 = unknown, when control leaves block p towards `to`.
+func (g *Graph) nilnessAtEnd(v ssa.Value, p, to *ssa.BasicBlock, depth int) int {
+	if depth > 4 {
+		return 0
+	}
+	if isNilConst(v) {
+		return 1
+	}
+	switch x := v.(type) {
+	case *ssa.MakeInterface:
+		return 2
+	case *ssa.Alloc, *ssa.MakeMap, *ssa.MakeSlice, *ssa.MakeChan, *ssa.MakeClosure, *ssa.Function:
+		return 2
+	case *ssa.Call:
+		if inner, ok := nilPreservingArg(x); ok {
+			return g.nilnessAtEnd(inner, p, to, depth+1)
+		}
+		if f, _ := calleeOf(x.Common()); f != nil && f.Pkg != nil {
+			switch f.Pkg.Pkg.Path() + "." + f.Name() {
+			case "errors.New", "fmt.Errorf", "github.com/pkg/errors.New", "github.com/pkg/errors.Errorf":
+				return 2
+			}
+		}
+	}
+	okE, badE := nilTestEdges(v)
+	for _, e := range okE {
+		if e.Via == nil && e.From == p && e.To() == to {
+			return 1
+		}
+	}
+	for _, e := range badE {
+		if e.Via == nil && e.From == p && e.To() == to {
+			return 2
+		}
+	}
+	if len(okE) > 0 && g.knownNilAt(v, p) {
+		return 1
+	}
+	if len(badE) > 0 && g.knownNonNilAt(v, p) {
+		return 2
+	}
+	return 0
 }
 
 func entryPos(fn *ssa.Function) IPos { return IPos{fn.Blocks[0], -1} }
@@ -486,20 +669,35 @@ type truthEdge struct {
 // condEdges returns the edges controlled by boolean value c, following negation and the
 // short-circuit forms go/ssa produces (a phi of constants and conditions is not followed: the
 // builder emits nested Ifs for && / || in branch position).
-func condEdges(c ssa.Value) []truthEdge {
+func condEdges(c ssa.Value) []truthEdge { return condEdgesD(c, 0) }
+
+func condEdgesD(c ssa.Value, depth int) []truthEdge {
 	var out []truthEdge
 	refs := c.Referrers()
-	if refs == nil {
+	if refs == nil || depth > 4 {
 		return nil
 	}
 	for _, r := range *refs {
 		switch r := r.(type) {
 		case *ssa.If:
-			out = append(out, truthEdge{Edge{r.Block(), 0}, true}, truthEdge{Edge{r.Block(), 1}, false})
+			out = append(out, truthEdge{Edge{From: r.Block(), Succ: 0}, true}, truthEdge{Edge{From: r.Block(), Succ: 1}, false})
 		case *ssa.UnOp:
 			if r.Op == token.NOT {
-				for _, e := range condEdges(r) {
+				for _, e := range condEdgesD(r, depth+1) {
 					out = append(out, truthEdge{e.Edge, !e.truth})
+				}
+			}
+		case *ssa.Phi:
+			// a named condition (x := a && b; if x …): on the path pred_i → phi block → successor the
+			// phi has the value that flowed in from pred_i
+			for i, in := range r.Edges {
+				if in != c {
+					continue
+				}
+				for _, e := range condEdgesD(r, depth+1) {
+					if e.From == r.Block() && e.Via == nil {
+						out = append(out, truthEdge{Edge{From: e.From, Succ: e.Succ, Via: r.Block().Preds[i]}, e.truth})
+					}
 				}
 			}
 		}
@@ -793,7 +991,7 @@ func (g *Graph) edgeFeasible(from, to *ssa.BasicBlock) bool {
 func (g *Graph) knownNilAtEnd(v ssa.Value, p, to *ssa.BasicBlock) bool {
 	ok, _ := nilTestEdges(v)
 	for _, e := range ok {
-		if e.From == p && e.To() == to {
+		if e.Via == nil && e.From == p && e.To() == to {
 			return true
 		}
 	}
@@ -879,4 +1077,331 @@ func nilImplyingPredicate(f *ssa.Function) int {
 		}
 	}
 	return k
+}
+
+// ---- comparisons in normal form --------------------------------------------------------------------
+
+// relOn returns the relation between bo.X and bo.Y that holds when bo evaluates to truth.
+func relOn(bo *ssa.BinOp, truth bool) token.Token {
+	if truth {
+		return bo.Op
+	}
+	switch bo.Op {
+	case token.EQL:
+		return token.NEQ
+	case token.NEQ:
+		return token.EQL
+	case token.LSS:
+		return token.GEQ
+	case token.LEQ:
+		return token.GTR
+	case token.GTR:
+		return token.LEQ
+	case token.GEQ:
+		return token.LSS
+	}
+	return token.ILLEGAL
+}
+
+func relSwap(r token.Token) token.Token {
+	switch r {
+	case token.LSS:
+		return token.GTR
+	case token.LEQ:
+		return token.GEQ
+	case token.GTR:
+		return token.LSS
+	case token.GEQ:
+		return token.LEQ
+	}
+	return r
+}
+
+func isOrdering(op token.Token) bool {
+	switch op {
+	case token.EQL, token.NEQ, token.LSS, token.LEQ, token.GTR, token.GEQ:
+		return true
+	}
+	return false
+}
+
+// relEdges lists, for every comparison in fn between a value satisfying isA and one satisfying isB (in
+// either operand order, under negation), the controlled edges with the relation "A rel B" holding on them.
+type relEdge struct {
+	Edge
+	Rel token.Token
+	Cmp *ssa.BinOp
+	A   ssa.Value
+	B   ssa.Value
+}
+
+func relEdges(fn *ssa.Function, isA, isB func(ssa.Value) bool) []relEdge {
+	var out []relEdge
+	for _, b := range fn.Blocks {
+		for _, in := range b.Instrs {
+			bo, ok := in.(*ssa.BinOp)
+			if !ok || !isOrdering(bo.Op) {
+				continue
+			}
+			for _, e := range condEdges(bo) {
+				if isA(bo.X) && isB(bo.Y) {
+					out = append(out, relEdge{e.Edge, relOn(bo, e.truth), bo, bo.X, bo.Y})
+				} else if isA(bo.Y) && isB(bo.X) {
+					out = append(out, relEdge{e.Edge, relSwap(relOn(bo, e.truth)), bo, bo.Y, bo.X})
+				}
+			}
+		}
+	}
+	return out
+}
+
+// withinEdges: edges on which A <= B is known.
+func withinEdges(fn *ssa.Function, isA, isB func(ssa.Value) bool) []Edge {
+	var out []Edge
+	for _, e := range relEdges(fn, isA, isB) {
+		if e.Rel == token.LEQ || e.Rel == token.LSS || e.Rel == token.EQL {
+			out = append(out, e.Edge)
+		}
+	}
+	return out
+}
+
+// emptyEdges: edges on which len(x) == 0 is known for a value x satisfying isList (tests against 0 or 1).
+func emptyEdges(fn *ssa.Function, isList func(ssa.Value) bool) (empty, nonEmpty []Edge) {
+	isLen := func(v ssa.Value) bool {
+		c, ok := v.(*ssa.Call)
+		if !ok {
+			return false
+		}
+		bi, ok := c.Call.Value.(*ssa.Builtin)
+		return ok && bi.Name() == "len" && len(c.Call.Args) == 1 && isList(c.Call.Args[0])
+	}
+	isSmall := func(v ssa.Value) bool { i, ok := constInt(v); return ok && (i == 0 || i == 1) }
+	for _, e := range relEdges(fn, isLen, isSmall) {
+		k, _ := constInt(e.B)
+		switch {
+		case k == 0 && (e.Rel == token.EQL || e.Rel == token.LEQ), k == 1 && e.Rel == token.LSS:
+			empty = append(empty, e.Edge)
+		case k == 0 && (e.Rel == token.NEQ || e.Rel == token.GTR), k == 1 && e.Rel == token.GEQ:
+			nonEmpty = append(nonEmpty, e.Edge)
+		}
+	}
+	// x == nil / x != nil on the slice itself
+	for _, e := range relEdges(fn, isList, isNilConst) {
+		switch e.Rel {
+		case token.EQL:
+			empty = append(empty, e.Edge)
+		}
+	}
+	return
+}
+
+// ---- table-driven loops ------------------------------------------------------------------------------
+
+// constRange describes `for _, x := range T` over a slice T whose elements are string constants (a
+// slice literal, or a package-level variable initialised with one and only ever read): the loop body
+// runs once per element, so an action on x in the body that is on every path of the body happens for
+// every element.
+type constRange struct {
+	Elems  []string
+	Header *ssa.BasicBlock // rangeindex.loop
+	Pre    *ssa.BasicBlock // the block entering the loop
+	Skip   Edge            // Header's exit edge taken straight from Pre (zero iterations): infeasible
+}
+
+// constRangeOf matches v = T[i] loaded in the body of such a loop.
+func constRangeOf(w *World, v ssa.Value) (*constRange, bool) {
+	ld, ok := v.(*ssa.UnOp)
+	if !ok || ld.Op != token.MUL {
+		return nil, false
+	}
+	ia, ok := ld.X.(*ssa.IndexAddr)
+	if !ok {
+		return nil, false
+	}
+	inc, ok := ia.Index.(*ssa.BinOp)
+	if !ok || inc.Op != token.ADD {
+		return nil, false
+	}
+	phi, ok := inc.X.(*ssa.Phi)
+	if !ok || phi.Comment != "rangeindex" || len(phi.Edges) != 2 {
+		return nil, false
+	}
+	if one, ok := constInt(inc.Y); !ok || one != 1 {
+		return nil, false
+	}
+	hdr := phi.Block()
+	var pre *ssa.BasicBlock
+	for i, e := range phi.Edges {
+		if c, ok := constInt(e); ok && c == -1 {
+			pre = hdr.Preds[i]
+		} else if e != ssa.Value(inc) {
+			return nil, false
+		}
+	}
+	if pre == nil || len(hdr.Succs) != 2 {
+		return nil, false
+	}
+	elems, ok := constStringSlice(w, ia.X)
+	if !ok || len(elems) == 0 {
+		return nil, false
+	}
+	// the body leaves only through the header: every path from the body entry returns to the header
+	body := hdr.Succs[0]
+	seen := map[*ssa.BasicBlock]bool{hdr: true}
+	stack := []*ssa.BasicBlock{body}
+	for len(stack) > 0 {
+		b := stack[len(stack)-1]
+		stack = stack[:len(stack)-1]
+		if seen[b] {
+			continue
+		}
+		seen[b] = true
+		if len(b.Succs) == 0 {
+			return nil, false // return / panic inside the body
+		}
+		for _, s := range b.Succs {
+			if s == hdr.Succs[1] {
+				return nil, false // break
+			}
+			stack = append(stack, s)
+		}
+	}
+	return &constRange{Elems: elems, Header: hdr, Pre: pre, Skip: Edge{From: hdr, Succ: 1, Via: pre}}, true
+}
+
+// constStringSlice: the elements of a slice literal of string constants, or of a package-level slice
+// variable initialised with one and never written or handed out afterwards.
+func constStringSlice(w *World, v ssa.Value) ([]string, bool) {
+	switch x := v.(type) {
+	case *ssa.Slice:
+		al, ok := x.X.(*ssa.Alloc)
+		if !ok || x.Low != nil || x.High != nil {
+			return nil, false
+		}
+		arr, ok := al.Type().Underlying().(*types.Pointer).Elem().Underlying().(*types.Array)
+		if !ok {
+			return nil, false
+		}
+		out := make([]string, arr.Len())
+		set := make([]bool, arr.Len())
+		for _, rf := range *al.Referrers() {
+			switch r := rf.(type) {
+			case *ssa.IndexAddr:
+				idx, ok := constInt(r.Index)
+				if !ok || idx < 0 || idx >= arr.Len() || r.Referrers() == nil {
+					return nil, false
+				}
+				for _, rr := range *r.Referrers() {
+					st, ok := rr.(*ssa.Store)
+					if !ok || st.Addr != ssa.Value(r) {
+						return nil, false
+					}
+					s, ok := constString(st.Val)
+					if !ok || set[idx] {
+						return nil, false
+					}
+					out[idx], set[idx] = s, true
+				}
+			case *ssa.Slice:
+				if r != x {
+					return nil, false
+				}
+			default:
+				return nil, false
+			}
+		}
+		for _, s := range set {
+			if !s {
+				return nil, false
+			}
+		}
+		return out, true
+	case *ssa.UnOp:
+		gl, ok := x.X.(*ssa.Global)
+		if !ok || x.Op != token.MUL || gl.Pkg == nil {
+			return nil, false
+		}
+		var init ssa.Value
+		for _, fn := range w.HelmFuncs() {
+			if fn.Pkg != gl.Pkg && !usesGlobalCheap(fn, gl) {
+				continue
+			}
+			for _, b := range fn.Blocks {
+				for _, in := range b.Instrs {
+					for _, op := range in.Operands(nil) {
+						if *op != ssa.Value(gl) {
+							continue
+						}
+						switch r := in.(type) {
+						case *ssa.Store:
+							if r.Addr != ssa.Value(gl) || fn.Name() != "init" || init != nil {
+								return nil, false
+							}
+							init = r.Val
+						case *ssa.UnOp:
+							if !readOnlySliceUse(r) {
+								return nil, false
+							}
+						default:
+							return nil, false
+						}
+					}
+				}
+			}
+		}
+		if init == nil {
+			// the package initialiser is not among the helm source functions: look it up
+			if ifn := gl.Pkg.Func("init"); ifn != nil {
+				for _, b := range ifn.Blocks {
+					for _, in := range b.Instrs {
+						if st, ok := in.(*ssa.Store); ok && st.Addr == ssa.Value(gl) {
+							if init != nil {
+								return nil, false
+							}
+							init = st.Val
+						}
+					}
+				}
+			}
+		}
+		if init == nil {
+			return nil, false
+		}
+		return constStringSlice(w, init)
+	}
+	return nil, false
+}
+
+func usesGlobalCheap(fn *ssa.Function, gl *ssa.Global) bool { return fn.Pkg == gl.Pkg }
+
+// readOnlySliceUse: the loaded slice is only ranged over, indexed for reading, measured or searched.
+func readOnlySliceUse(ld *ssa.UnOp) bool {
+	if ld.Referrers() == nil {
+		return true
+	}
+	for _, rf := range *ld.Referrers() {
+		switch r := rf.(type) {
+		case *ssa.IndexAddr:
+			if r.Referrers() != nil {
+				for _, rr := range *r.Referrers() {
+					if u, ok := rr.(*ssa.UnOp); !ok || u.Op != token.MUL {
+						return false
+					}
+				}
+			}
+		case *ssa.Call:
+			if bi, ok := r.Call.Value.(*ssa.Builtin); ok && (bi.Name() == "len" || bi.Name() == "cap") {
+				continue
+			}
+			if f, _ := calleeOf(r.Common()); f != nil && (fnPkgPath(f) == "slices" && (f.Name() == "Contains" || f.Name() == "Index")) {
+				continue
+			}
+			return false
+		case *ssa.DebugRef:
+		default:
+			return false
+		}
+	}
+	return true
 }
